@@ -3,8 +3,8 @@ package engs
 import (
 	"fmt"
 	"os"
-	"strconv"
 	"path/filepath"
+	"strconv"
 	"sync"
 	"time"
 
